@@ -1,4 +1,5 @@
 import RLV.Lemmas.MenuCycle
+import RLV.Lemmas.MenuCycleBack
 /-! C15 — Menu completion cycles through every candidate exactly once (property theorems).
 
 `Menu2.move` is the stage-wise model of `(*group).moveSelector` for plain (non-aliased) groups
@@ -9,8 +10,9 @@ definition for its plain groups. `tab` is one `menu-complete` inside a group: a 
 `n ≥ 1` candidates in rows of `c ≥ 1` columns with a possibly shorter last row (`Grid`).
 
 Proved for every `n`, `c`, and every valid starting cell — no bound on the number of candidates,
-columns, rows or presses. The backward cycle, aliased (shared-description) groups and the hand-over
-between several groups are decided by the correspondence and by sessions, not by a theorem yet. -/
+columns, rows or presses — forwards (`menu-complete`) and backwards (`menu-complete-backward`:
+`tabBack`, a move back and on `done` the last cell). Aliased (shared-description) groups and the
+hand-over between several groups are decided by the correspondence and by sessions, not by a theorem. -/
 namespace RLV.Props.C15
 open RLV RLV.Menu2 RLV.Core
 
@@ -45,6 +47,41 @@ theorem tab_stays_on_a_candidate {n c : Nat} (s : Sel) (g : Grid s n c) (hv : Va
     ∃ s', tab s = .ok s' ∧ Valid s' := by
   obtain ⟨s', h1, h2, _⟩ := tab_step g hv
   exact ⟨s', h1, h2⟩
+
+/-- A backward press selects the previous candidate in row-major order, the last one from the first:
+index `(i - 1) mod n`; it never fails and stays on a real candidate. -/
+theorem shift_tab_goes_back_by_one_mod_n {n c : Nat} (s : Sel) (g : Grid s n c) (hv : Valid s) :
+    ∃ s', tabBack s = .ok s' ∧ Valid s' ∧
+      idx s' c = (if idx s c = 0 then (n : Int) - 1 else idx s c - 1) := by
+  obtain ⟨s', h1, h2, _, _, h3⟩ := tabBack_step g hv
+  exact ⟨s', h1, h2, h3⟩
+
+/-- Backward undoes forward: a press followed by a backward press is on the candidate it started from
+(so the backward cycle visits the same candidates in the opposite order, each exactly once). -/
+theorem shift_tab_undoes_tab {n c : Nat} (s : Sel) (g : Grid s n c) (hv : Valid s) :
+    ∃ s1 s2, tab s = .ok s1 ∧ tabBack s1 = .ok s2 ∧ idx s2 c = idx s c := by
+  obtain ⟨s1, h1, hv1, hr, hR, hi, hlt⟩ := tab_step g hv
+  have g1 : Grid s1 n c := by
+    constructor
+    · exact g.hc
+    · rw [hR]; exact g.hR
+    · intro y hy; rw [hr]; exact g.hrows y (by rw [hR] at hy; exact hy)
+    · rw [hr, hR]; exact g.hlast
+    · rw [hr, hR]; exact g.hlast1
+    · rw [hr, hR]; exact g.hlastc
+  obtain ⟨s2, h2, _, _, _, hi2⟩ := tabBack_step g1 hv1
+  refine ⟨s1, s2, h1, h2, ?_⟩
+  have h0 : 0 ≤ idx s c := by
+    obtain ⟨hx, hy, _, _⟩ := hv
+    unfold idx
+    have : 0 ≤ s.y * (c : Int) := Int.mul_nonneg hy (by omega)
+    omega
+  rw [hi2, hi]
+  by_cases hw : idx s c + 1 = n
+  · rw [if_pos hw]; simp; omega
+  · rw [if_neg hw]
+    have : ¬ (idx s c + 1 = 0) := by omega
+    rw [if_neg this]; omega
 
 -- non-vacuity: 7 candidates in rows of 3 (a 3×3 grid with a short last row), selector on the first
 def grid7 : Sel := { rows := fun y => if y < 2 then 3 else 1, R := 3, maxX := 3, x := 0, y := 0 }
